@@ -62,6 +62,7 @@ def run(ctx):
                 (ctx.ok if ok else ctx.bad)("M-WRITERS", "M-WRITERS:%s@%s" % (owner.rsplit("::", 1)[-1], b.key), st[3],
                     "window/storage field written inside the message module" if ok else "%s field written outside the message module in %s" % (owner, b.pretty))
     ctx.require(n >= 5, "M-WRITERS: found only %d writes of the window fields (anchor lost)" % n)
+    m_window(ctx, prog)
     # field visibility: bytes/start/end must not be public
     ch = prog.adt("message::chunk::Chunk")
     for f in ch["variants"][0]["fields"]:
@@ -73,6 +74,101 @@ def run(ctx):
         ok = "Public" not in f["vis"]
         (ctx.ok if ok else ctx.bad)("M-WRITERS", "M-WRITERS:vis:Message.%s" % f["name"], ms["span"],
             "Message.%s is private" % f["name"] if ok else "Message.%s is public" % f["name"])
+
+
+def _buffer_len(o):
+    """origins that measure the whole buffer behind a chunk (Vec / slice / str length), as opposed to its window"""
+    return [a for a in o if a[0] == "call" and a[1] and a[1].rsplit("::", 1)[-1] == "len" and not a[1].startswith("elvis_core::")] + \
+           [a for a in o if a[0] == "op" and a[1] == "PtrMetadata"]
+
+
+def _only_compared(b, local):
+    """the value in `local` is only ever compared (an assertion about the window), never stored or computed with"""
+    CMP = ("Lt", "Le", "Gt", "Ge", "Eq", "Ne")
+    todo, seen = [local], set()
+
+    def mentions(x, l):
+        if isinstance(x, list):
+            if len(x) == 2 and x[0] in ("cp", "mv") and isinstance(x[1], list) and x[1] and x[1][0] == l:
+                return True
+            return any(mentions(y, l) for y in x)
+        return False
+    while todo:
+        l = todo.pop()
+        if l in seen:
+            continue
+        seen.add(l)
+        for blk in b.blocks:
+            if blk["c"]:
+                continue
+            for st in blk["s"]:
+                if st[0] != "a" or not mentions(st[2], l):
+                    continue
+                rv = st[2]
+                if rv[0] == "bin" and rv[1] in CMP:
+                    continue
+                if rv[0] in ("use", "cast") and not st[1][1]:
+                    todo.append(st[1][0])
+                    continue
+                return False
+            t = blk["t"]
+            if t[0] == "call" and mentions(F.call_args(t), l):
+                return False
+            if t[0] == "assert" and mentions(t[3] if len(t) > 3 else [], l):
+                continue
+    return True
+
+
+def m_window(ctx, prog):
+    """M-WINDOW: a chunk's window is computed from windows, never from the size of the buffer behind it.  Only
+    Chunk::new, which wraps a fresh buffer, may use the buffer length; every other place that builds a Chunk or rewrites
+    start / end derives the bounds from existing start / end values, window lengths and the caller's offsets - otherwise
+    bytes that an earlier slice or cut removed (they are still in the shared buffer) come back."""
+    from .. import dep
+    n = 0
+    fresh = prog.method("Chunk", "new").key
+    for b in prog.bodies.values():
+        if not b.key.startswith("elvis_core::message::"):
+            continue
+        for bb, st in K.aggregates(b, "message::chunk::Chunk"):
+            n += 1
+            if b.key == fresh:
+                bo = dep.origins(b, K.agg_field_operand(st, "bytes"), at=K.at_stmt(b, bb, st))
+                ok = not dep.has_field(bo, "Chunk", "bytes")
+                (ctx.ok if ok else ctx.bad)("M-WINDOW", "M-WINDOW:Chunk{}@%s" % b.key, st[3],
+                    "Chunk::new wraps a fresh buffer (window = whole buffer)" if ok else "Chunk::new re-wraps the buffer of an existing chunk with the full-buffer window")
+                continue
+            bad = []
+            for fld in ("start", "end"):
+                o = dep.origins(b, K.agg_field_operand(st, fld), at=K.at_stmt(b, bb, st))
+                if _buffer_len(o):
+                    bad.append(fld)
+            (ctx.bad if bad else ctx.ok)("M-WINDOW", "M-WINDOW:Chunk{}@%s" % b.key, st[3],
+                "a chunk built in %s takes its %s from the length of the shared buffer instead of from the window it was derived from: bytes removed earlier reappear" % (b.pretty, " and ".join(bad)) if bad else
+                "derived chunk: bounds computed from windows")
+        for bb, st in K.assigns_to_field(b, "chunk::Chunk", ("start", "end")):
+            n += 1
+            o = set()
+            for op in dep.rvalue_operands(st[2]):
+                o |= dep.origins(b, op, at=K.at_stmt(b, bb, st))
+            bad = _buffer_len(o)
+            (ctx.bad if bad else ctx.ok)("M-WINDOW", "M-WINDOW:%s@%s" % (".".join(x[1] for x in F.place_fields(st[1])[-1:]), b.key), st[3],
+                "a window bound is set from the length of the shared buffer in %s: bytes removed earlier reappear" % b.pretty if bad else "window bound computed from windows and offsets")
+    # ... including through helpers and closures: the length of the buffer of an existing chunk is not read at all
+    nl = 0
+    for b in prog.bodies.values():
+        if not b.key.startswith("elvis_core::message::"):
+            continue
+        for bb, t in K.calls(b):
+            ck = F.callee_key(t) or ""
+            if ck.rsplit("::", 1)[-1] != "len" or ck.startswith("elvis_core::") or not F.call_args(t):
+                continue
+            nl += 1
+            o = dep.arg_origins(b, bb, 0, through_calls=True)
+            if dep.has_field(o, "Chunk", "bytes") and not _only_compared(b, F.call_dest(t)[0]):
+                ctx.bad("M-WINDOW", "M-WINDOW:buffer-len@%s" % b.key, F.call_loc(t),
+                        "%s reads the length of the shared buffer behind an existing chunk (chunk.bytes.len()); the chunk's window ends at chunk.end, so a bound derived from this value brings back bytes that were sliced or cut off" % b.pretty)
+    ctx.require(n >= 5 and nl >= 1, "M-WINDOW: only %d window computations / %d length reads found (anchor lost)" % (n, nl))
 
 
 def _write_api_uses(prog, adt_key):
